@@ -103,12 +103,18 @@ func genPage(rt *rapid.T, env *dataEnv, layoutRef string, k int, where map[strin
 		page = append(page, ins)
 	}
 	page = append(page, tw.Text(rapid.SampledFrom(junk).Draw(rt, "junkEnd")))
+	// @use need not be the first statement of the page
+	if at := rapid.IntRange(0, len(page)-1).Draw(rt, "usePosition"); at > 0 && rapid.Bool().Draw(rt, "useNotFirst") {
+		use := page[0]
+		page = append(append(append([]*tw.Stmt{}, page[1:at+1]...), use), page[at+1:]...)
+		forms["use-not-first"] = "yes"
+	}
 	return page, forms
 }
 
 func TestC06_Layouts(t *testing.T) {
 	c := harness.New(t, "C06", "layouts",
-		"template directories with a layout (1..4 distinct reserves at top level, inside @if(data flag), inside @each(data array) with loop.index, in attribute-like text, nested @if/@each/@if) and a page using it by '~name' or 'layouts/name' (names with dots, dashes and digits included), inserting a random subset of the reserves in random order, block form (markers, prints of data, @if/@each bodies) or expression form, with junk text, comments and blank lines between inserts; data maps with every kind; directory 't' or 'x/t', extensions .tw / .tw.html / .html. Expected output: the reference composition model (layout rendered with each reserve replaced by the reference rendering of its insert, page text outside inserts discarded). Non-trivial: >= 2 reserves, one nested in @if/@each, and a proper non-empty subset inserted. Distinct by hash of files + data.")
+		"template directories with a layout (1..4 distinct reserves at top level, inside @if(data flag), inside @each(data array) with loop.index, in attribute-like text, nested @if/@each/@if) and a page using it by '~name', 'layouts/name' or another spelling of that path (/layouts/name, ./layouts/name, layouts//name, pages/../layouts/name; names with dots, dashes and digits included), the @use standing before, between or after the inserts, inserting a random subset of the reserves in random order, block form (markers, prints of data, @if/@each bodies) or expression form, with junk text, comments and blank lines between inserts; data maps with every kind; directory 't' or 'x/t', extensions .tw / .tw.html / .html. Expected output: the reference composition model (layout rendered with each reserve replaced by the reference rendering of its insert, page text outside inserts discarded). Non-trivial: >= 2 reserves, one nested in @if/@each, and a proper non-empty subset inserted. Distinct by hash of files + data.")
 	defer c.Finish()
 	in := interp()
 	runRapid(t, c, 4000, 45000, func(rt *rapid.T) {
@@ -121,6 +127,9 @@ func TestC06_Layouts(t *testing.T) {
 		lname, ref := "layouts/"+base, "layouts/"+base
 		if alias {
 			ref = "~" + base
+		} else {
+			// other spellings of the same relative path
+			ref = rapid.SampledFrom([]string{"layouts/" + base, "layouts/" + base, "/layouts/" + base, "./layouts/" + base, "layouts//" + base, "pages/../layouts/" + base}).Draw(rt, "refSpelling")
 		}
 		page, forms := genPage(rt, env, ref, k, where)
 		files := refint.Files{lname: layout, "pages/home": page}
@@ -290,7 +299,11 @@ func TestC06_Errors(t *testing.T) {
 			}
 			files["home"] = []*tw.Stmt{{Kind: tw.SUse, Name: "~main"}, tw.Text("\n"), ins}
 		case "missing-layout":
-			files["home"][0] = &tw.Stmt{Kind: tw.SUse, Name: rapid.SampledFrom([]string{"~nosuch", "layouts/nosuch", "nosuch"}).Draw(rt, "missing")}
+			for i, st := range files["home"] {
+				if st.Kind == tw.SUse {
+					files["home"][i] = &tw.Stmt{Kind: tw.SUse, Name: rapid.SampledFrom([]string{"~nosuch", "layouts/nosuch", "nosuch"}).Draw(rt, "missing")}
+				}
+			}
 		case "layout-uses-layout":
 			files["layouts/main"] = append([]*tw.Stmt{{Kind: tw.SUse, Name: "~outer"}}, layout...)
 			files["layouts/outer"] = []*tw.Stmt{tw.Text("<outer>"), {Kind: tw.SReserve, Name: "r0"}}
